@@ -125,9 +125,7 @@ class SpecGen:
         for i, n in enumerate(names):
             earlier = names[:i]
             if earlier and self.rng.random() < 0.4:
-                own = self.schema(1, [])
-                if own.get("type") != "object":
-                    own = {"type": "object", "properties": {"own%d" % i: self.simple_type()}}
+                own = {"type": "object", "properties": {"own%d" % i: self.simple_type()}}
                 defs[n] = {"allOf": [{"$ref": "#/definitions/" + self.pick(earlier)}, own]}
             else:
                 s = self.schema(2, earlier)
@@ -245,3 +243,212 @@ def rename_names(doc, rng):
     except Exception:
         pass
     return d, "none"
+
+
+# ------------------------------------------------------------------ rule-breaking edits (C03)
+
+def _ops(doc):
+    out = []
+    for path, item in doc.get("paths", {}).items():
+        for m, op in item.items():
+            if isinstance(op, dict) and "responses" in op:
+                out.append((path, m, op))
+    return out
+
+
+def _placeholders(path):
+    out, i = [], 0
+    while True:
+        j = path.find("{", i)
+        if j < 0:
+            return out
+        k = path.find("}", j)
+        if k < 0:
+            return out
+        out.append(path[j + 1:k])
+        i = k + 1
+
+
+def edit_dup_opid(d, rng):
+    ops = _ops(d)
+    if len(ops) < 2:
+        return None
+    a, b = rng.sample(ops, 2)
+    b[2]["operationId"] = a[2]["operationId"]
+    return "operation id %s used twice" % a[2]["operationId"]
+
+
+def edit_missing_path_param(d, rng):
+    cands = [(p, m, op) for p, m, op in _ops(d) if _placeholders(p)]
+    if not cands:
+        return None
+    p, m, op = rng.choice(cands)
+    ph = rng.choice(_placeholders(p))
+    op["parameters"] = [x for x in op.get("parameters", []) if not (x.get("in") == "path" and x.get("name") == ph)]
+    return "placeholder {%s} of %s has no path parameter in %s" % (ph, p, m)
+
+
+def edit_extra_path_param(d, rng):
+    p, m, op = rng.choice(_ops(d))
+    op.setdefault("parameters", []).append({"name": "ghost", "in": "path", "required": True, "type": "string"})
+    return "path parameter ghost is not in the template %s" % p
+
+
+def edit_path_param_not_required(d, rng):
+    cands = [x for p, m, op in _ops(d) for x in op.get("parameters", []) if x.get("in") == "path"]
+    if not cands:
+        return None
+    x = rng.choice(cands)
+    x["required"] = False
+    return "path parameter %s is not required" % x["name"]
+
+
+def edit_dup_placeholder(d, rng):
+    d["paths"]["/dup/{id}/x/{id}"] = {"get": {"operationId": "dupPlaceholder", "responses": {"200": {"description": "r"}},
+                                              "parameters": [{"name": "id", "in": "path", "required": True, "type": "string"}]}}
+    return "placeholder {id} appears twice in one template"
+
+
+def edit_dup_param(d, rng):
+    cands = [(p, m, op) for p, m, op in _ops(d) if [x for x in op.get("parameters", []) if "name" in x]]
+    if not cands:
+        return None
+    p, m, op = rng.choice(cands)
+    x = rng.choice([x for x in op["parameters"] if "name" in x])
+    y = copy.deepcopy(x)
+    y["description"] = "declared again"          # not an identical copy: uniqueItems of the schema pass does not see it
+    op["parameters"].append(y)
+    return "parameter %s in %s declared twice" % (x["name"], x["in"])
+
+
+def edit_two_bodies(d, rng):
+    p, m, op = rng.choice(_ops(d))
+    ps = [x for x in op.get("parameters", []) if x.get("in") not in ("body", "formData")]
+    ps += [{"name": "b1", "in": "body", "schema": {"type": "object"}}, {"name": "b2", "in": "body", "schema": {"type": "string"}}]
+    op["parameters"] = ps
+    return "two body parameters"
+
+
+def edit_body_and_form(d, rng):
+    p, m, op = rng.choice(_ops(d))
+    ps = [x for x in op.get("parameters", []) if x.get("in") not in ("body", "formData")]
+    ps += [{"name": "b1", "in": "body", "schema": {"type": "object"}}, {"name": "f1", "in": "formData", "type": "string"}]
+    op["parameters"] = ps
+    return "body and formData parameters together"
+
+
+def edit_array_no_items(d, rng):
+    p, m, op = rng.choice(_ops(d))
+    if rng.random() < 0.5:
+        op.setdefault("parameters", []).append({"name": "arr", "in": "query", "type": "array"})
+        return "array parameter without items"
+    code = rng.choice(sorted(op["responses"]))
+    op["responses"][code]["schema"] = {"type": "array"}
+    return "array response schema without items"
+
+
+def edit_required_undefined(d, rng):
+    defs = d.setdefault("definitions", {})
+    d0 = {"type": "object", "required": ["nope"], "properties": {"there": {"type": "string"}}}
+    k = rng.randrange(5)
+    if k == 1:
+        d0["additionalProperties"] = False
+    elif k == 2:
+        d0["additionalProperties"] = {"type": "object", "properties": {"other": {"type": "string"}}}
+    elif k == 3:
+        d0["additionalProperties"] = {"type": "object", "additionalProperties": False}
+    elif k == 4:
+        d0["required"] = ["there", "nope"]
+    defs["Req"] = d0
+    return "required property nope is not defined (variant %d)" % k
+
+
+def edit_dangling_ref(d, rng):
+    p, m, op = rng.choice(_ops(d))
+    code = rng.choice(sorted(op["responses"]))
+    op["responses"][code]["schema"] = {"$ref": "#/definitions/Nowhere"}
+    return "reference to an undefined definition"
+
+
+def edit_dup_inherited(d, rng):
+    defs = d.setdefault("definitions", {})
+    defs["ParentX"] = {"type": "object", "properties": {"shared": {"type": "string"}}}
+    defs["ChildX"] = {"allOf": [{"$ref": "#/definitions/ParentX"}, {"type": "object", "properties": {"shared": {"type": "string"}}}]}
+    return "child redeclares the property shared of its ancestor"
+
+
+def edit_circular(d, rng):
+    defs = d.setdefault("definitions", {})
+    defs["CycA"] = {"allOf": [{"$ref": "#/definitions/CycB"}]}
+    defs["CycB"] = {"allOf": [{"$ref": "#/definitions/CycA"}]}
+    return "circular ancestry"
+
+
+def edit_bad_pattern(d, rng):
+    p, m, op = rng.choice(_ops(d))
+    op.setdefault("parameters", []).append({"name": "pat", "in": "query", "type": "string", "pattern": "("})
+    return "parameter with an invalid pattern"
+
+
+def edit_empty_placeholder(d, rng):
+    d["paths"]["/empty/{}"] = {"get": {"operationId": "emptyPlaceholder", "responses": {"200": {"description": "r"}}}}
+    return "empty placeholder in a path"
+
+
+def edit_overlap(d, rng):
+    d["paths"]["/ov/{a}"] = {"get": {"operationId": "ovA", "responses": {"200": {"description": "r"}},
+                                     "parameters": [{"name": "a", "in": "path", "required": True, "type": "string"}]}}
+    d["paths"]["/ov/{b}"] = {"get": {"operationId": "ovB", "responses": {"200": {"description": "r"}},
+                                     "parameters": [{"name": "b", "in": "path", "required": True, "type": "string"}]}}
+    return "overlapping paths /ov/{a} and /ov/{b}"
+
+
+def edit_body_via_shared(d, rng):
+    d.setdefault("parameters", {})["sharedBody"] = {"name": "sb", "in": "body", "schema": {"type": "object"}}
+    p, m, op = rng.choice(_ops(d))
+    ps = [x for x in op.get("parameters", []) if x.get("in") not in ("body", "formData")]
+    ps += [{"$ref": "#/parameters/sharedBody"}, {"name": "inlineBody", "in": "body", "schema": {"type": "object"}}]
+    op["parameters"] = ps
+    return "a body parameter through #/parameters plus an inline one"
+
+
+# harmless edits: the rules still hold
+def keep_required_via_additional(d, rng):
+    d.setdefault("definitions", {})["ViaAdditional"] = {"type": "object", "required": ["anything"], "additionalProperties": True}
+    return "required property satisfied through additionalProperties"
+
+
+def keep_required_via_pattern(d, rng):
+    d.setdefault("definitions", {})["ViaPattern"] = {"type": "object", "required": ["x-thing"], "patternProperties": {"^x-": {"type": "string"}}}
+    return "required property satisfied through patternProperties"
+
+
+def keep_required_via_nested_additional(d, rng):
+    d.setdefault("definitions", {})["ViaNested"] = {"type": "object", "required": ["inner"],
+                                                   "additionalProperties": {"type": "object", "properties": {"inner": {"type": "string"}}}}
+    return "required property defined inside the additionalProperties schema"
+
+
+def keep_two_placeholders_one_segment(d, rng):
+    d["paths"]["/two/{a}-{b}"] = {"get": {"operationId": "twoInOne", "responses": {"200": {"description": "r"}},
+                                          "parameters": [{"name": "a", "in": "path", "required": True, "type": "string"},
+                                                         {"name": "b", "in": "path", "required": True, "type": "string"}]}}
+    return "two placeholders in one path segment"
+
+
+def keep_same_name_other_location(d, rng):
+    p, m, op = rng.choice(_ops(d))
+    op.setdefault("parameters", []).extend([{"name": "same", "in": "query", "type": "string"}, {"name": "same", "in": "header", "type": "string"}])
+    return "same parameter name in two locations"
+
+
+BREAKING = [("unique operation ids", edit_dup_opid, False), ("path parameters match the template", edit_missing_path_param, False),
+            ("path parameters match the template", edit_extra_path_param, False), ("path parameters are required", edit_path_param_not_required, False),
+            ("placeholders are unique", edit_dup_placeholder, False), ("unique name and location", edit_dup_param, False),
+            ("at most one body parameter", edit_two_bodies, False), ("body and formData are exclusive", edit_body_and_form, False),
+            ("arrays declare items", edit_array_no_items, False), ("required properties are defined", edit_required_undefined, False),
+            ("references resolve", edit_dangling_ref, False), ("no duplicate inherited properties", edit_dup_inherited, False),
+            ("no circular ancestry", edit_circular, False), ("patterns are valid", edit_bad_pattern, False),
+            ("no empty placeholder", edit_empty_placeholder, False), ("no overlapping paths", edit_overlap, True),
+            ("at most one body parameter", edit_body_via_shared, False)]
+HARMLESS = [keep_required_via_additional, keep_required_via_nested_additional, keep_two_placeholders_one_segment, keep_same_name_other_location]
